@@ -53,6 +53,9 @@ func (rt *runtime) newNativeFunctionObject(name, file string, line int, native n
 	o.defineOwnProperty("caller", property{
 		value: propertyGetSet{
 			rt.newNativeFunctionProperty("get", "internal", 0, func(fc FunctionCall) Value {
+				// Use the calling runtime and receiver: after Copy() this closure
+				// is shared with the clone, whose runtime and function object differ.
+				rt, o := fc.runtime, fc.This.object()
 				for sc := rt.scope; sc != nil; sc = sc.outer {
 					if sc.frame.fn == o {
 						if sc.outer == nil || sc.outer.frame.fn == nil {
@@ -129,6 +132,9 @@ func (rt *runtime) newNodeFunctionObject(node *nodeFunctionLiteral, stash stashe
 	o.defineOwnProperty("caller", property{
 		value: propertyGetSet{
 			rt.newNativeFunction("get", "internal", 0, func(fc FunctionCall) Value {
+				// Use the calling runtime and receiver: after Copy() this closure
+				// is shared with the clone, whose runtime and function object differ.
+				rt, o := fc.runtime, fc.This.object()
 				for sc := rt.scope; sc != nil; sc = sc.outer {
 					if sc.frame.fn == o {
 						if sc.outer == nil || sc.outer.frame.fn == nil {
